@@ -22,7 +22,7 @@ NOT_APPLICABLE = {
 }
 
 # properties whose check is registered in MANIFEST.json (validated on the unchanged tree)
-READY = ['C04', 'C06', 'C09', 'C10', 'C15', 'C16', 'C18']
+READY = ['C04', 'C06', 'C08', 'C09', 'C10', 'C15', 'C16', 'C18']
 
 CHECKS = {
     'C01': dict(
@@ -108,10 +108,10 @@ CHECKS = {
         note='The two 1e-14 round trips depend on the accuracy of the actual libm and are evaluated only by the native oracle on replay, not decided by the solver. Polar reference clause: cosines with <= 10 significant bits.',
     ),
     'C19': dict(
-        text='Per depth, for every image point: four weights in [0, 1] summing to 1 within 1e-12, cells = the cell of the point or its neighbours, that cell present, weight 1 on it at its centre, '
+        text='Per depth, for every cell and every offset pair on the 1/256 lattice of [0, 1]^2: four weights in [0, 1] summing to 1 within 1e-12, cells = the cell or its neighbours, that cell present, weight 1 on it at its centre, '
              'zero-weight filler next to a three-cell point, barycentre = the position when the four cells share a base cell.',
         design_ref='DESIGN.md section 5 C19',
-        note='Plane cut as in C03; hash_with_dxdy range facts assumed here and decided in C03.',
+        note='Cut at hash_with_dxdy (decided in C03): the harness supplies the cell and the offsets. Offsets restricted to multiples of 1/256.',
     ),
     'C04': dict(
         text='Bounded model checking per depth: for EVERY cell a and EVERY other cell c of the depth (both symbolic) the neighbour map of a is '
